@@ -215,3 +215,7 @@ def runFuel {α : Type} (k : Fmt) (preload : Bool) (file : List α) (chosen : α
 end Head
 
 end Pandora.Model.C14
+
+/-- the translator `/verif/gen` opens the namespaces `Pandora` and `Pandora.Go` in every regenerated file; this makes
+them exist for `Gen/ChosenCases.lean` without importing anything else -/
+def Pandora.Go.c14Anchor : Unit := ()
